@@ -353,7 +353,7 @@ func init() {
 // spinLimit - iterations of the scheduler loop without any visible effect (no vertex changing status, no idle tick, no task
 // function entered or left) after which the scheduler is taken to spin: a correct scheduler completes, launches (at most once
 // per vertex) or idles in every iteration, so the number of silent iterations is bounded by the number of vertices.
-const spinLimit = 20000
+const spinLimit = 3000
 
 func unpack(s uint64) (tick uint64, pending, inprog, skip, done int) {
 	return s >> 40, int(s>>30) & 1023, int(s>>20) & 1023, int(s>>10) & 1023, int(s) & 1023
